@@ -70,6 +70,7 @@ type actorRunner struct {
 	launched    atomic.Int64
 	terminated  atomic.Bool
 	termAsked   atomic.Bool
+	termAt      atomic.Int64 // wall clock (ns) at which the actor handled its own OnTerminated
 	termEarly   atomic.Bool
 	idleDue     atomic.Bool  // some turn began >= idle-tick after the previous one ended
 	lastTurn    atomic.Int64 // unix nanos of the end of the last turn (handler or callback)
@@ -162,6 +163,7 @@ func (r *actorRunner) receive(ctx vivid.ActorContext) {
 		}
 	case *vivid.OnTerminated:
 		if r.restarting.Load() == 0 && m.TerminatedActor.GetLogicalAddress() == ctx.Ref().GetLogicalAddress() {
+			r.termAt.Store(time.Now().UnixNano())
 			r.terminated.Store(true)
 		}
 	case *cmd:
@@ -297,6 +299,23 @@ func (r *actorRunner) clearOfNext(margin time.Duration) bool {
 	return !time.Now().After(next.Add(-margin))
 }
 
+// lateSelfTermination: the ideal actor has terminated itself (idle deadline / expiry) while a user
+// task was pending; the real actor does the same a little later (late is never a violation). If it was
+// so much later that the pending task's due time came first (within the margin), that task fired once
+// more - legitimately - and the counts of this case are not determined by the ideal run.
+func (r *actorRunner) lateSelfTermination() bool {
+	n := r.sim.lostNext
+	if n < 0 {
+		return false
+	}
+	limit := r.t0.Add(time.Duration(n) * time.Millisecond).Add(-cancelMargin)
+	ta := r.termAt.Load()
+	if ta == 0 {
+		return time.Now().After(limit)
+	}
+	return time.Unix(0, ta).After(limit)
+}
+
 func (r *actorRunner) decision(f func() string) string {
 	r.settle()
 	if r.sim.conflict {
@@ -305,7 +324,17 @@ func (r *actorRunner) decision(f func() string) string {
 	if !r.clearOfNext(cancelMargin + 5*time.Millisecond) {
 		r.invalid = true
 	}
+	// the next post of the ideal run as it stood BEFORE the decision: the decision may cancel or
+	// replace that very task (stop, re-registration, crash -> Clear, terminate -> Close), and it is
+	// carried out by a message to the actor - on a stalled machine the message can be handled after the
+	// post it was meant to prevent. Decisions that take virtual time themselves (busy/crash/term with a
+	// duration) are `special`: their counts are never compared.
+	v0, before := r.vnow, r.sim.nextDue()
 	out := f()
+	if r.vnow == v0 && before >= 0 && time.Now().After(r.t0.Add(time.Duration(before)*time.Millisecond).Add(-cancelMargin)) {
+		// counts of this case are not determined any more (flags such as `early` stay)
+		r.invalid = true
+	}
 	return out
 }
 
@@ -415,16 +444,6 @@ func (r *actorRunner) Step(t []string) string {
 			return "bad-op"
 		}
 		return r.decision(func() string {
-			// the next post of the ideal run as it stood BEFORE the operation: the operation may cancel
-			// or replace that very task, and it is carried out by a message to the actor - on a stalled
-			// machine the message can be handled after the post it was meant to prevent.
-			before := r.sim.nextDue()
-			defer func() {
-				if before >= 0 && time.Now().After(r.t0.Add(time.Duration(before)*time.Millisecond).Add(-cancelMargin)) {
-					// counts of this case are not determined any more (flags such as `early` stay)
-					r.invalid = true
-				}
-			}()
 			st, live := r.sim.tell(t[0], m.name, m.a, m.iv, m.k)
 			if !live {
 				// the message goes to the dead letters; nothing answers
@@ -549,7 +568,7 @@ func (r *actorRunner) Step(t []string) string {
 			if r.invalid || r.special {
 				return "-"
 			}
-			if !r.clearOfNext(cancelMargin) {
+			if !r.clearOfNext(cancelMargin) || r.lateSelfTermination() {
 				r.invalid = true
 				return "-"
 			}
@@ -568,6 +587,13 @@ func (r *actorRunner) Step(t []string) string {
 			}
 			v := !r.terminated.Load()
 			if !r.clearOfNext(cancelMargin) {
+				r.invalid = true
+				return "-"
+			}
+			if !v && r.sim.live {
+				// terminated although the ideal run says alive, and not early (checked above): the
+				// machine stalled for longer than the idle deadline / until the expiry, which is
+				// legitimate on the real clock - this case is not determined by the ideal run any more
 				r.invalid = true
 				return "-"
 			}
